@@ -19,6 +19,17 @@ func c14(c *Ctx) {
 	c14R2(c)
 	c14R3(c)
 	c14R4(c, "C14.R4")
+	c14R6(c)
+	ruleStateless(c, "C14.R5", [][2]string{
+		{"pkg/link", "VethNameForPod"},
+		{"plugin/driver/utils", "GetRouteTableID"},
+		{"pkg/ip", "DeriveGatewayIP"},
+		{"pkg/ip", "GetIPAtIndex"},
+		{"pkg/tc", "U32MatchSrc"},
+		{"pkg/tc", "U32IPv4Src"},
+		{"pkg/tc", "U32IPv6Src"},
+		{"pkg/tc", "MatchSrc"},
+	})
 }
 
 func constInt(info *types.Info, x ast.Expr) (int64, bool) {
@@ -666,4 +677,65 @@ func c14R4(c *Ctx, rule string) {
 		param := get.Decl.Type.Params.List[0].Names[0].Name
 		c.Require(rule, "GetIPAtIndex returns only addresses inside the subnet", get, r, param+".Contains("+exprString(r.Results[0])+")", nil)
 	}
+}
+
+// R6: the identity of a classifier key is (offset, value, mask). Wherever two
+// u32 keys are compared field by field, all three are compared: two words of an
+// IPv6 address can carry the same value under the same mask at different
+// offsets, and a comparison that forgets the offset merges them.
+func c14R6(c *Ctx) {
+	p := c.P
+	c.Rule("C14.R6", "u32 key identity: every field-wise comparison of two netlink.TcU32Key values in the module compares Off, Val and Mask (keys that differ only in their offset are different words of the address)")
+	type pair struct {
+		fn   *FuncInfo
+		a, b string
+	}
+	fields := map[pair]map[string]bool{}
+	at := map[pair]ast.Node{}
+	for _, fn := range p.live() {
+		if fn.Decl.Body == nil {
+			continue
+		}
+		info := fn.Info()
+		ast.Inspect(fn.Decl.Body, func(n ast.Node) bool {
+			be, ok := n.(*ast.BinaryExpr)
+			if !ok || (be.Op != token.EQL && be.Op != token.NEQ) {
+				return true
+			}
+			sx, ok1 := ast.Unparen(be.X).(*ast.SelectorExpr)
+			sy, ok2 := ast.Unparen(be.Y).(*ast.SelectorExpr)
+			if !ok1 || !ok2 || sx.Sel.Name != sy.Sel.Name {
+				return true
+			}
+			isKey := func(x ast.Expr) bool {
+				t := info.TypeOf(x)
+				return t != nil && (typeIs(t, "github.com/vishvananda/netlink", "TcU32Key") || typeIs(t, "github.com/vishvananda/netlink/nl", "TcU32Key"))
+			}
+			if !isKey(sx.X) || !isKey(sy.X) {
+				return true
+			}
+			a, b := exprString(sx.X), exprString(sy.X)
+			if a > b {
+				a, b = b, a
+			}
+			k := pair{fn, a, b}
+			if fields[k] == nil {
+				fields[k] = map[string]bool{}
+				at[k] = be
+			}
+			fields[k][sx.Sel.Name] = true
+			return true
+		})
+	}
+	var keys []pair
+	for k := range fields {
+		keys = append(keys, k)
+	}
+	sort.Slice(keys, func(i, j int) bool { return at[keys[i]].Pos() < at[keys[j]].Pos() })
+	for _, k := range keys {
+		f := fields[k]
+		c.Check(f["Off"] && f["Val"] && f["Mask"], "C14.R6", k.fn.Name+": keys "+k.a+" / "+k.b+" compared on offset, value and mask", p.Pos(at[k]), k.fn.Key(),
+			"compared fields ⊇ {Off, Val, Mask}", "compared: "+strings.Join(keysOf(f), ", "))
+	}
+	c.Floor("C14.R6", "field-wise key comparisons", 1, len(keys))
 }
